@@ -170,6 +170,59 @@ theorem none_applied_rows {m : LMap} {R : List Id} (inv : RowsInv m [] R) : R = 
   apply List.eq_nil_iff_forall_not_mem.mpr
   intro x hx; have := (inv.rows x).mp hx; simp [IsMax] at this
 
+/-! ### the oracles `Spec.Rev.rowsOk` / `traceOk`, evaluated on the implementation's rows -/
+
+/-- **What a `true` verdict of the rows oracle means**: the version table is duplicate-free and
+holds exactly the applied revisions that no applied revision names as a prerequisite. -/
+theorem rowsOk_sound (h : Hist) (applied rows : List Id) (hok : rowsOk h applied rows = true) :
+    rows.Nodup ∧ ∀ x, x ∈ rows ↔ x ∈ applied ∧ ∀ c ∈ children h x, c ∉ applied := by
+  unfold rowsOk at hok
+  simp only [Bool.and_eq_true] at hok
+  obtain ⟨h1, h2⟩ := hok
+  refine ⟨(nodupB_iff _).mp h1, ?_⟩
+  unfold sameSet maximal at h2
+  simp only [Bool.and_eq_true, List.all_eq_true, decide_eq_true_eq, List.mem_filter, Bool.not_eq_true',
+    List.any_eq_false] at h2
+  intro x
+  constructor
+  · intro hx; exact h2.1 x hx
+  · intro hx; exact h2.2 x hx
+
+/-- the applied set after a list of steps (`true` = upgrade step) -/
+def appliedAfter : List Id → List (Id × Bool) → List Id
+  | A, [] => A
+  | A, (r, up) :: rest =>
+    appliedAfter (if up then (if r ∈ A then A else r :: A) else A.filter (· != r)) rest
+
+/-- **A `true` verdict of the trace oracle** means the rows recorded after *every* step of the
+plan are the maximal applied revisions at that moment. -/
+theorem traceOk_sound (h : Hist) : ∀ (steps : List (Id × Bool)) (A : List Id) (tr : List (List Id)),
+    traceOk h A steps tr = true → tr.length = steps.length ∧
+      ∀ k (hk : k < tr.length), rowsOk h (appliedAfter A (steps.take (k + 1))) tr[k] = true := by
+  intro steps
+  induction steps with
+  | nil =>
+    intro A tr hok
+    cases tr with
+    | nil => exact ⟨rfl, fun k hk => absurd hk (by simp)⟩
+    | cons _ _ => simp [traceOk] at hok
+  | cons s rest ih =>
+    intro A tr hok
+    obtain ⟨r, up⟩ := s
+    cases tr with
+    | nil => simp [traceOk] at hok
+    | cons rows tr' =>
+      simp only [traceOk, Bool.and_eq_true] at hok
+      obtain ⟨h1, h2⟩ := hok
+      obtain ⟨hl, hall⟩ := ih _ tr' h2
+      refine ⟨by simp [hl], ?_⟩
+      intro k hk
+      cases k with
+      | zero => simpa [appliedAfter] using h1
+      | succ k' =>
+        have := hall k' (by simpa using hk)
+        simpa [appliedAfter] using this
+
 /-! ### non-vacuity: a merge with a redundant parent (the shape of the repaired defects F2/F3) -/
 
 def demo3 : Hist :=
